@@ -23,7 +23,10 @@ ASSUMPTIONS = [
     "are not modelled (sampled by the oracle only)",
     "int(): modelled on the class [+-]?[0-9]+ and on strings containing an ASCII letter or "
     "punctuation (rejected); whitespace/underscore/non-ASCII-digit spellings are outside the model",
-    "dates are decided by the oracle only (cast(format(v)) = v for dates and date-times at second resolution, years 1000-9999; no date model)",
+    "dates: the model (Model/TsdbDate.v) is the two regular expressions of _parse_datetime with their "
+    "backtracking order, _date_fix and what strptime accepts on the string it builds (numeric ranges and the "
+    "calendar), over ASCII; non-ASCII digits, letters and white space are outside the model; the value of "
+    "'now'/':today' is the clock's and only its kind is compared",
 ]
 TRUSTED = ["Tie A translator harness/translate/tsdb_gen.py (escape chain, unescape table, "
            "FIELD_DELIMITER, TSDB_CODED_ATTRIBUTES regenerated from the source on every run)"]
@@ -146,6 +149,32 @@ def gen(rng, tier):
     for _ in range(nrand // 10):
         cases.append({"k": "fdate", "ymd": [rng.randrange(1000, 10000), rng.randrange(1, 13), rng.randrange(1, 29)],
                       "hms": [rng.randrange(0, 24), rng.randrange(0, 60), rng.randrange(0, 60)]})
+    # every documented spelling of an instant denotes that instant (oracle only)
+    for inst in [(2018, 2, 1, 0, 0, 0), (1999, 12, 31, 23, 59, 59), (2000, 2, 29, 7, 5, 0), (1993, 1, 1, 0, 0, 1),
+                 (2092, 10, 12, 10, 51, 0), (1000, 1, 1, 0, 0, 0), (9999, 12, 31, 0, 0, 59)]:
+        cases.append({"k": "dspell", "inst": list(inst)})
+    for _ in range(nrand // 20):
+        cases.append({"k": "dspell", "inst": [rng.randrange(1000, 10000), rng.randrange(1, 13), rng.randrange(1, 29),
+                                              rng.randrange(0, 24), rng.randrange(0, 60), rng.choice([0, rng.randrange(0, 60)])]})
+    # date texts for the correspondence with the date model: every spelling of some instants,
+    # generated and mutated spellings, keywords, random texts
+    for inst in [(2018, 2, 1, 0, 0, 0), (1999, 12, 31, 23, 59, 59), (2000, 2, 29, 7, 5, 0), (1993, 1, 1, 0, 0, 1)]:
+        for sp in _spellings(*inst):
+            cases.append({"k": "dcast", "s": sp})
+    for sp in ["10-6-2002", "8-sep-1999", "apr-95", "01-dec-02 (15:31:01)", "2008-10-12 10:51", "30-feb-2001",
+               "29-feb-1900", "29-feb-2000", "31-4-2010", "1-1-0000", "0000-1-1", "1-1-92", "1-1-93", "201-18",
+               "2018-1-1 24:00:00", "2018-1-1 23:59:60", "2018-13-1", "2018-1-32", "12-2018", "10-2018"]:
+        cases.append({"k": "dcast", "s": sp})
+    for _ in range(nrand):
+        t = _date_text(rng)
+        if t:
+            cases.append({"k": "dcast", "s": t})
+    # floats: casting the formatted form returns the value (oracle only)
+    for x in [0.0, -0.0, 1.5, -2.25, 0.1, 1e-05, 1e+20, 123456789.125, 3.141592653589793, 5e-324, 1.7976931348623157e+308,
+              2.05e-3, 100.0, -1e-10]:
+        cases.append({"k": "ffloat", "x": x})
+    for _ in range(nrand // 20):
+        cases.append({"k": "ffloat", "x": rng.uniform(-1e6, 1e6) * 10 ** rng.randrange(-12, 12)})
     for _ in range(nrand // 2):
         nf = rng.randrange(1, 5)
         fs = _rand_fields(rng, nf)
@@ -171,7 +200,7 @@ def nontrivial(c):
         return any(v in (None, "") or any(ch in v for ch in "\\@\n") for v in c["vs"])
     if k == "cast":
         return bool(c["raw"])
-    if k in ("format", "fdate"):
+    if k in ("format", "fdate", "dspell", "ffloat", "dcast"):
         return True
     if k in ("rowint", "rowslice", "rowname", "rowiter", "joint"):
         return True
@@ -196,6 +225,67 @@ def _fields(fs):
     return [tsdb.Field(n, dt) for n, dt in fs]
 
 
+MONS = ["jan", "feb", "mar", "apr", "may", "jun", "jul", "aug", "sep", "oct", "nov", "dec"]
+
+
+def _spellings(y, mo, d, h, mi, sec):
+    """the documented ways of writing one instant: DD-MM-YY[YY] with the month as a number or a
+    three-letter abbreviation, the day optional (the first), two-digit years from 1993 to 2092,
+    YYYY-MM-DD, and an optional time HH:MM[:SS], optionally in parentheses"""
+    mon = MONS[mo - 1]
+    dates = ["%d-%d-%d" % (d, mo, y), "%02d-%02d-%d" % (d, mo, y), "%d-%s-%d" % (d, mon, y),
+             "%d-%s-%d" % (d, mon.upper(), y), "%d-%d-%d" % (y, mo, d), "%d-%02d-%02d" % (y, mo, d),
+             "%d-%s-%d" % (y, mon, d)]
+    if 1993 <= y <= 2092:
+        dates += ["%d-%d-%02d" % (d, mo, y % 100), "%d-%s-%02d" % (d, mon, y % 100)]
+    if d == 1:
+        dates += ["%s-%d" % (mon, y), "%d-%d" % (mo, y), "%d-%d" % (y, mo)]
+    times = [""] if (h, mi, sec) == (0, 0, 0) else []
+    times += [" %02d:%02d:%02d" % (h, mi, sec), " (%02d:%02d:%02d)" % (h, mi, sec), "(%02d:%02d:%02d)" % (h, mi, sec)]
+    if sec == 0:
+        times += [" %02d:%02d" % (h, mi), " (%02d:%02d)" % (h, mi)]
+    return [a + b for a in dates for b in times]
+
+
+D_ALPHA = "0123456789-: ()janJ_x\t"
+
+
+def _date_text(rng):
+    """a date text: a spelling built from parts (valid or slightly out of range), a mutated one,
+    a keyword, or a short random text over the characters dates are made of"""
+    def spell():
+        y = rng.choice([rng.randrange(1000, 10000), rng.randrange(1990, 2100), rng.randrange(0, 1000)])
+        mo, d = rng.randrange(0, 14), rng.randrange(0, 33)
+        h, mi, sec = rng.randrange(0, 25), rng.randrange(0, 61), rng.randrange(0, 63)
+        mon = MONS[(mo - 1) % 12]
+        ms = rng.choice([str(mo), "%02d" % mo, mon, mon, mon.upper(), mon.capitalize(), "xyz", "j_n", "1a"])
+        ds = rng.choice([str(d), "%02d" % d])
+        ys = rng.choice(["%04d" % y, "%04d" % y, "%02d" % (y % 100), str(y)])
+        dp = rng.choice(["%s-%s-%s" % (ds, ms, ys), "%s-%s" % (ms, ys), "%04d-%s-%s" % (y, ms, ds),
+                         "%04d-%s" % (y, ms), "%s-%s-%s" % (ys, ms, ds)])
+        tp = rng.choice(["", "", " %02d:%02d:%02d" % (h, mi, sec), " (%02d:%02d:%02d)" % (h, mi, sec),
+                         "(%02d:%02d:%02d)" % (h, mi, sec), " %02d:%02d" % (h, mi), "  (%02d:%02d)" % (h, mi),
+                         "%02d:%02d:%02d" % (h, mi, sec), " %d:%02d" % (h, mi), "\t(%02d:%02d:%02d" % (h, mi, sec)])
+        return dp + tp
+    r = rng.random()
+    if r < 0.5:
+        return spell()
+    if r < 0.85:
+        t = list(spell())
+        for _ in range(rng.randrange(1, 3)):
+            q = rng.random()
+            if q < 0.4 and t:
+                del t[rng.randrange(len(t))]
+            elif q < 0.8:
+                t.insert(rng.randrange(len(t) + 1), rng.choice(D_ALPHA))
+            elif t:
+                t[rng.randrange(len(t))] = rng.choice(D_ALPHA)
+        return "".join(t)
+    if r < 0.9:
+        return rng.choice([":today", "now", "today x", ":now", "to", "nowhere", ":x", "nov-2018", "now-2018"])
+    return "".join(rng.choice(D_ALPHA) for _ in range(rng.randrange(1, 12)))
+
+
 def _fdate_value(c):
     import datetime
     if c["hms"] is None:
@@ -208,6 +298,25 @@ def observe(c):
     k = c["k"]
     if k == "fdate":
         return {"r": tsdb.format(":date", _fdate_value(c))}
+    if k == "dspell":
+        return {"r": len(_spellings(*c["inst"]))}
+    if k == "dcast":
+        import datetime
+        import warnings
+        with warnings.catch_warnings():
+            warnings.simplefilter("ignore")
+            before = datetime.datetime.now()
+            try:
+                v = tsdb.cast(":date", c["s"])
+            except KeyError:
+                return {"r": ["keyerror"]}
+        if v is None:
+            return {"r": ["none"]}
+        if v.microsecond or before <= v <= datetime.datetime.now():
+            return {"r": ["now"]}
+        return {"r": ["dt", v.year, v.month, v.day, v.hour, v.minute, v.second]}
+    if k == "ffloat":
+        return {"r": tsdb.format(":float", c["x"])}
     try:
         if k == "escape":
             return {"r": tsdb.escape(c["s"])}
@@ -292,6 +401,23 @@ def oracle(c):
             got = tsdb.split(line + tail)
             if got != want:
                 return "split(join(%r)%r) = %r" % (vs, tail, got)
+        return None
+    if k == "dspell":
+        import datetime
+        import warnings
+        want = datetime.datetime(*c["inst"])
+        with warnings.catch_warnings():
+            warnings.simplefilter("ignore")
+            for sp in _spellings(*c["inst"]):
+                got = tsdb.cast(":date", sp)
+                if got != want:
+                    return "cast(':date', %r) = %r, the spelling denotes %r" % (sp, got, want)
+        return None
+    if k == "ffloat":
+        x = c["x"]
+        got = tsdb.cast(":float", tsdb.format(":float", x))
+        if got != x or str(got) != str(x):
+            return "cast(':float', format(':float', %r)) = %r" % (x, got)
         return None
     if k == "fdate":
         import datetime
@@ -394,8 +520,19 @@ def _res(o, f):
 
 def coq_case(c, o):
     k = c["k"]
+    if k == "dcast":
+        r = o["r"]
+        res = {"none": "DNone", "now": "DNow", "keyerror": "DKeyError"}.get(r[0]) or (
+            "(DSome {| dy := %d; dmo := %d; dd := %d; dh := %d; dmi := %d; TsdbDate.ds := %d |})" % tuple(r[1:]))
+        return app("CDate", cstr(c["s"]), res)
     if k == "fdate":
-        return None          # dates are decided by the oracle (no date model)
+        if c["ymd"][0] < 1000:
+            return None
+        h, mi, sec = c["hms"] or [0, 0, 0]
+        return app("CFmtDate", "{| dy := %d; dmo := %d; dd := %d; dh := %d; dmi := %d; TsdbDate.ds := %d |}" % (
+            tuple(c["ymd"]) + (h, mi, sec)), cstr(o["r"]))
+    if k in ("dspell", "ffloat"):
+        return None          # decided by the oracle (the spellings are also sent to the model as dcast cases)
     if k == "escape":
         return app("CEscape", cstr(c["s"]), cstr(o["r"]))
     if k == "unescape":
